@@ -20,6 +20,9 @@ type c14Template struct {
 	twoSel    bool
 	expectErr bool // the query itself is invalid/unsupported: evaluation must fail
 	limitable bool
+	// undetermined: LogQL leaves the answer open (ties, float summation order), so
+	// the result is not compared with the twin's; errors and closes still are.
+	undetermined bool
 	build     func(a, b, rng string) string
 }
 
@@ -35,7 +38,7 @@ var c14Templates = []c14Template{
 	{name: "rate_filter", metric: true, build: func(a, _, r string) string { return "rate(" + a + ` |= "r" [` + r + "])" }},
 	{name: "sum_by", metric: true, build: func(a, _, r string) string { return "sum by (container) (count_over_time(" + a + "[" + r + "]))" }},
 	{name: "max_without", metric: true, build: func(a, _, r string) string { return "max without (msg) (count_over_time(" + a + "[" + r + "]))" }},
-	{name: "topk", metric: true, build: func(a, _, r string) string {
+	{name: "topk", metric: true, undetermined: true, build: func(a, _, r string) string {
 		return "topk(2, sum by (container) (count_over_time(" + a + "[" + r + "])))"
 	}},
 	{name: "vec_lit", metric: true, build: func(a, _, r string) string { return "count_over_time(" + a + "[" + r + "]) * 2" }},
@@ -49,6 +52,34 @@ var c14Templates = []c14Template{
 	{name: "binop", metric: true, twoSel: true, build: func(a, b, r string) string {
 		return "sum by (container) (count_over_time(" + a + "[" + r + "])) + sum by (container) (count_over_time(" + b + "[" + r + "]))"
 	}},
+	{name: "count_offset", metric: true, build: func(a, _, r string) string { return "count_over_time(" + a + "[" + r + "] offset 5s)" }},
+	{name: "sum_unwrap", metric: true, build: func(a, _, r string) string { return "sum_over_time(" + a + " | unwrap weight [" + r + "])" }},
+	{name: "avg_unwrap_by", metric: true, build: func(a, _, r string) string {
+		return "avg_over_time(" + a + " | unwrap weight [" + r + "]) by (container)"
+	}},
+	{name: "quantile_unwrap", metric: true, build: func(a, _, r string) string {
+		return "quantile_over_time(0.5, " + a + " | unwrap weight [" + r + "]) by (container)"
+	}},
+	{name: "first_last", metric: true, twoSel: true, build: func(a, b, r string) string {
+		return "first_over_time(" + a + " | unwrap weight [" + r + "]) by (container) - last_over_time(" + b + " | unwrap weight [" + r + "]) by (container)"
+	}},
+	{name: "avg_by", metric: true, undetermined: true, build: func(a, _, r string) string { return "avg by (container_image) (count_over_time(" + a + "[" + r + "]))" }},
+	{name: "count_by", metric: true, build: func(a, _, r string) string { return "count by (container_image) (bytes_over_time(" + a + "[" + r + "]))" }},
+	{name: "stddev_by", metric: true, undetermined: true, build: func(a, _, r string) string {
+		return "stddev by (container_image) (count_over_time(" + a + "[" + r + "]))"
+	}},
+	{name: "sort_desc", metric: true, undetermined: true, build: func(a, _, r string) string {
+		return "sort_desc(sum by (container) (count_over_time(" + a + "[" + r + "])))"
+	}},
+	{name: "bottomk_by", metric: true, undetermined: true, build: func(a, _, r string) string {
+		return "bottomk by (container_image) (1, count_over_time(" + a + "[" + r + "]))"
+	}},
+	{name: "json_unwrap", metric: true, build: func(a, _, r string) string {
+		return "max_over_time(" + a + " | logfmt | unwrap k [" + r + "]) by (container)"
+	}},
+	{name: "log_parsers", limitable: true, build: func(a, _, _ string) string { return a + ` | logfmt | k >= 0 | drop msg` }},
+	{name: "log_distinct", limitable: true, build: func(a, _, _ string) string { return a + ` | distinct container` }},
+	{name: "log_keep", limitable: true, build: func(a, _, _ string) string { return a + ` | keep container, container_id` }},
 	{name: "binop_or", metric: true, twoSel: true, build: func(a, b, r string) string {
 		return "sum by (container) (count_over_time(" + a + "[" + r + "])) or sum by (container) (bytes_over_time(" + b + "[" + r + "]))"
 	}},
@@ -164,6 +195,8 @@ func (propC14) Gen(r *Rng, run uint64, tier string) *Plan {
 	}
 	if r.Bool(0.3) {
 		spec.Msg = "rich"
+	} else if r.Bool(0.3) {
+		spec.Msg = "structured"
 	}
 	if r.Bool(0.3) {
 		spec.NMax = 1
@@ -200,6 +233,9 @@ func (propC14) Gen(r *Rng, run uint64, tier string) *Plan {
 	if tpl.expectErr {
 		p.Tags["expect_error"] = "1"
 	}
+	if tpl.undetermined {
+		p.Tags["undetermined"] = "1"
+	}
 	p.Params = Params{Start: start, End: end, StepNs: step, Limit: -1}
 	if tpl.metric {
 		if r.Bool(0.25) {
@@ -214,8 +250,14 @@ func (propC14) Gen(r *Rng, run uint64, tier string) *Plan {
 		if tpl.limitable && r.Bool(0.45) {
 			p.Params.Limit = 1 + r.Intn(5)
 		}
+		if r.Bool(0.15) {
+			// Instant log query: the window is [End+lookback, End].
+			p.Params.Start, p.Params.StepNs = p.Params.End, 0
+			p.Params.LookbackNs = -(end - (start - rng) + sec)
+			p.Tags["instant"] = "1"
+		}
 	}
-	if !tpl.metric && r.Bool(0.25) {
+	if !tpl.metric && p.Tags["instant"] != "1" && r.Bool(0.25) {
 		// Command level: the real cobra command; a failure must come back from
 		// Execute as an error and nothing may have been printed.
 		p.Harness = "cli"
@@ -355,7 +397,7 @@ func (propC14) Expand(t *testing.T, p *Plan) []*Plan {
 	twin := c14Twin(p, false, nil)
 	twin.Config = "faultfree"
 	baseTags := func() map[string]string {
-		return map[string]string{"template": p.Tags["template"], "expect_error": p.Tags["expect_error"], "instant": p.Tags["instant"],
+		return map[string]string{"template": p.Tags["template"], "expect_error": p.Tags["expect_error"], "instant": p.Tags["instant"], "undetermined": p.Tags["undetermined"],
 			"selA": p.Tags["selA"], "selB": p.Tags["selB"], "range": p.Tags["range"]}
 	}
 	twin.Tags = baseTags()
@@ -613,7 +655,7 @@ func (propC14) Check(t *testing.T, p *Plan, st *Stats) *Violation {
 			if o2.Bad() || o2.Failed {
 				return viol("C14(iv:twin-succeeds)", "the fault-free twin succeeds", o2.ErrClass()+" "+clip(o2.ErrText+o2.Panic, 300))
 			}
-			if a, b := o.Result.Render()+o.Stdout, o2.Result.Render()+o2.Stdout; a != b {
+			if a, b := o.Result.Render()+o.Stdout, o2.Result.Render()+o2.Stdout; a != b && p.Tags["undetermined"] != "1" {
 				return viol("C14(ii:result-equals-twin)", "the fault-free twin's result: "+clip(b, 400), clip(a, 400))
 			}
 			if v := closeViol(o2, "fault-free twin"); v != nil {
